@@ -3,6 +3,7 @@
 From Coq Require Import ZArith List Znumtheory.
 From Verif Require Import Lib.Params Lib.Primes Spec.Edwards Model.BabyJub
   Proofs.BabyJubGroup Proofs.BabyJubModel Proofs.BabyJubOrder Proofs.BabyJubSmallOrder.
+From Verif Require Proofs.GapCurve Proofs.BabyJubCoreProofs.
 From Verif Require Gen.BigIntRoutines Proofs.BigIntEqAdd.
 Local Open Scope Z_scope.
 
@@ -71,6 +72,12 @@ Proof. exact small_order_table. Qed.
 Theorem C04_add_is_the_source : forall p o, BigIntRoutines.babyjub_PointProjective_Add p o = Add p o.
 Proof. exact BigIntEqAdd.gen_babyjub_PointProjective_Add_eq. Qed.
 
+(* PointProjective.Add on GENERAL projective representatives (any Z <> 0), not only Z = 1 *)
+Theorem C04_add_general_representatives : forall P1' P2' P1 P2,
+  BabyJubCoreProofs.represents q P1' P1 -> BabyJubCoreProofs.represents q P2' P2 -> oc P1 -> oc P2 ->
+  BabyJubCoreProofs.represents q (Add P1' P2') (add P1 P2).
+Proof. exact GapCurve.Add_general_representatives. Qed.
+
 Print Assumptions C04_add_is_group_law.
 Print Assumptions C04_group_laws.
 Print Assumptions C04_mul_is_repeated_addition.
@@ -78,3 +85,4 @@ Print Assumptions C04_order_kills_all.
 Print Assumptions C04_constants.
 Print Assumptions C04_small_order_table.
 Print Assumptions C04_add_is_the_source.
+Print Assumptions C04_add_general_representatives.
